@@ -238,6 +238,7 @@ class NestedAsyncEvent(NestedEvent):
         state_tree = reduce(dict.get, machine.get_global_name(join=False), state_tree)
         ordered_states = resolve_order(state_tree)
         done = set()
+        result = None
         event_data.event = self
         for state_path in ordered_states:
             state_name = machine.state_cls.separator.join(state_path)
@@ -247,11 +248,15 @@ class NestedAsyncEvent(NestedEvent):
                 event_data.source_path = copy.copy(state_path)
                 await self._process(event_data)
                 if event_data.result:
+                    result = True
                     elems = state_path
                     while elems:
                         done.add(machine.state_cls.separator.join(elems))
                         elems.pop()
-        return event_data.result
+                elif result is None:
+                    result = event_data.result
+        event_data.result = result
+        return result
 
     async def _process(self, event_data):
         machine = event_data.machine
